@@ -16,6 +16,19 @@ class BreakEx(Exception):
 class ContinueEx(Exception):
     def __init__(self, label=None): self.label = label
 
+def collect_syms(t, acc, seen):
+    i = t.get_id()
+    if i in seen: return
+    seen.add(i)
+    if z3.is_quantifier(t):
+        collect_syms(t.body(), acc, seen); return
+    if z3.is_app(t):
+        d = t.decl()
+        if d.kind() == z3.Z3_OP_UNINTERPRETED and t.num_args() > 0:
+            acc.add(d.name())
+        for c in t.children():
+            collect_syms(c, acc, seen)
+
 def simp_bool(c):
     c = z3.simplify(c)
     if z3.is_true(c): return True
@@ -79,6 +92,10 @@ class GoExec:
         self.prop = prop
         self.int_overflow_checks = True
         self.covers = []
+        sm = {'seq': ByteSeq, 'int': I, 'arr': ArrII, 'bool': B}
+        self.ghost_funcs = {k: sm[v] for k, v in getattr(spec, 'ghostfns', {}).items()}
+        if any(v == 'seq' for v in getattr(spec, 'ghostfns', {}).values()):
+            pass
 
     # ------------------------------------------------------------------ forking by re-execution
     def choose(self, n):
@@ -147,10 +164,33 @@ class GoExec:
         cnt = sum(1 for o in self.obls if o.name == n or o.name.startswith(n + '~'))
         if cnt:
             n = '%s~%d' % (n, cnt)
-        self.obls.append(Obligation(n, self.base_hyps() + st.hyps() + list(extra), goal, kind, func=fname, src=src, meta=meta))
+        body = st.hyps() + list(extra)
+        self.obls.append(Obligation(n, self.relevant_axioms(body + [goal]) + body, goal, kind, func=fname, src=src, meta=meta))
 
     def base_hyps(self):
-        return list(self.axioms) + list(STRLIT_FACTS) + (seq_axioms() if self.use_seq else [])
+        return list(self.axioms) + (seq_axioms() if self.use_seq else [])
+
+    def relevant_axioms(self, terms):
+        """global axioms are included only when they share an uninterpreted symbol with the obligation (closure)"""
+        axs = self.base_hyps()
+        if not axs:
+            return []
+        syms = set()
+        seen = set()
+        for t in terms:
+            collect_syms(t, syms, seen)
+        info = []
+        for a in axs:
+            s = set(); collect_syms(a, s, set())
+            info.append((a, s))
+        out, changed = [], True
+        used = [False] * len(info)
+        while changed:
+            changed = False
+            for i, (a, s) in enumerate(info):
+                if not used[i] and (s & syms):
+                    used[i] = True; out.append(a); syms |= s; changed = True
+        return out
 
     # ------------------------------------------------------------------ integer helpers
     def wrap(self, v, tid, st=None, line=None, what='overflow'):
@@ -653,8 +693,19 @@ class GoExec:
         return FuncV(lit=e, env=st)
 
     def ev_TypeAssertExpr(self, st, e):
-        x = self.ev(st, e['X'])
-        raise Unsupported('type assertion @%s' % e.get('line'))
+        return self.type_assert(st, e, commaok=False)
+
+    def type_tag(self, tid):
+        return z3.IntVal(1000 + tid)
+
+    def unbox(self, st, x, tid):
+        if isinstance(x, IfaceV) and x.concrete is not None and x.tid == tid:
+            return x.concrete
+        if self.tt.kind(tid) == 'iface':
+            return x
+        v = self.lay.fresh(tid, 'unbox')
+        for w in self.lay.wf(v, tid): st.assume(w)
+        return v
 
     def ev_KeyValueExpr(self, st, e):
         raise Unsupported('key-value')
